@@ -399,7 +399,7 @@ func handleEvent(ctx context.Context, t *Torrent, c peer.TorEvent) error {
 			finalisePiece(t, c.Index)
 		}
 		cpp := t.Pieces.PieceSize() / config.ChunkSize
-		chunks := c.Length / config.ChunkSize
+		chunks := (c.Length + config.ChunkSize - 1) / config.ChunkSize
 		for i := uint32(0); i < chunks; i++ {
 			chunk := c.Index*cpp + c.Begin/config.ChunkSize + i
 			noteInFlight(t, chunk, false)
@@ -421,7 +421,7 @@ func handleEvent(ctx context.Context, t *Torrent, c peer.TorEvent) error {
 			return nil
 		}
 		cpp := t.Pieces.PieceSize() / config.ChunkSize
-		chunks := c.Length / config.ChunkSize
+		chunks := (c.Length + config.ChunkSize - 1) / config.ChunkSize
 		for i := uint32(0); i < chunks; i++ {
 			chunk := c.Index*cpp + c.Begin/config.ChunkSize + i
 			noteInFlight(t, chunk, false)
